@@ -140,10 +140,22 @@ func lrSentence(t *rapid.T) []string {
 		for i := 0; i <= pick(3, "ups"); i++ {
 			out = append(out, "..", "/")
 		}
-		for i := 0; i < pick(3, "mid"); i++ {
-			out = append(out, id(), "/")
+		// one time in eight the key expression carries a predicate of its own on one of its steps, which the
+		// rel-path-keyexpr of RFC 6020 does not allow (a multi-token departure from the language)
+		nested := func() []string {
+			if pick(8, "nestedpred") == 3 {
+				return []string{"[", id(), "=", "current", "(", ")", "/", "..", "/", id(), "]"}
+			}
+			return nil
 		}
-		return append(out, id(), "]")
+		for i := 0; i < pick(3, "mid"); i++ {
+			out = append(out, id())
+			out = append(out, nested()...)
+			out = append(out, "/")
+		}
+		out = append(out, id())
+		out = append(out, nested()...)
+		return append(out, "]")
 	}
 	abs := func() []string {
 		var out []string
